@@ -358,7 +358,7 @@ structure Passwd where
 def authenticate (P : Prims) (sec : Sec) (pw : Passwd) : Except Err Nat × Sec :=
   if sec.R < 5 then
     match padPasswd pw.pdfDoc with
-    | .error e => (.error e, sec)
+    | .error _ => (.error .auth, sec)   -- no PDFDocEncoding form: cannot be the right password
     | .ok padded =>
       match authenticateOwner P sec padded with
       | .ok sec' => (.ok Gen.sec_PermAll, sec')
@@ -368,7 +368,7 @@ def authenticate (P : Prims) (sec : Sec) (pw : Passwd) : Except Err Nat × Sec :
         | .error _ => (.error .auth, sec)
   else
     match utf8Passwd pw.sasl with
-    | .error e => (.error e, sec)
+    | .error _ => (.error .auth, sec)   -- rejected by SASLprep: cannot be the right password
     | .ok prepared =>
       match authenticateOwner6 P sec prepared with
       | .ok sec' => (.ok Gen.sec_PermAll, sec')
@@ -1014,5 +1014,49 @@ def newWriterSec (P : Prims) (o : WriterOpt) (rng : Bytes) : Except Err WriterSe
         | .error e => .error e
         | .ok d => .ok { ids := ids, enc := some { sec := sec, strF := some sch.1, stmF := some sch.1 },
                          dict := some d, rng := rng }
+
+/-! ## `Writer.Close`: the ID the key was derived from; `Writer.OpenStream`: the Crypt-first rule -/
+
+/-- the check `Writer.Close` makes in an encrypted file before the trailer is written:
+`MetaInfo.ID` (which `GetMeta` hands out for modification) must still have two elements and its
+first one must be the ID the handler was created with (`NewWriter` keeps its own copy) -/
+def closeCheckID (enc : Option EncInfo) (metaID : List Bytes) : Except Err Unit :=
+  match enc with
+  | none => .ok ()
+  | some e =>
+    match metaID with
+    | [a, _] => if a == e.sec.ID then .ok () else .error .other
+    | _ => .error .other
+
+/-- a filter of a stream's chain as far as encryption is concerned -/
+inductive FilterKind where
+  | cryptIdentity      -- /Crypt with /Name /Identity (or no /Name)
+  | cryptOther         -- /Crypt naming /StdCF or another crypt filter: cannot be written yet
+  | other              -- any other filter
+  deriving DecidableEq, Repr, Inhabited
+
+def FilterKind.isCrypt : FilterKind → Bool
+  | .other => false
+  | _ => true
+
+/-- a Crypt filter somewhere behind the first position -/
+def cryptBehindFirst : List FilterKind → Bool
+  | [] => false
+  | _ :: rest => rest.any (·.isCrypt)
+
+/-- `Writer.OpenStream`: the filters named in the stream dictionary (`dictChain`) come first, the
+`filters` argument is appended.  Result: the chain written to the file and whether the default
+stream encryption is skipped (`leadingCrypt != nil`; `refIsPlaintext` is a separate input of
+the caller).  Errors (all plain `errors.New`): a Crypt filter not in first position in either
+part, a Crypt filter other than Identity, a Crypt argument behind a dictionary that already has
+filters. -/
+def openStreamChain (dictChain argChain : List FilterKind) : Except Err (List FilterKind × Bool) :=
+  if cryptBehindFirst argChain then .error .other
+  else if argChain.head? == some .cryptOther then .error .other
+  else if cryptBehindFirst dictChain then .error .other
+  else if dictChain.head? == some .cryptOther then .error .other
+  else if argChain.head? == some .cryptIdentity && !dictChain.isEmpty then .error .other
+  else .ok (dictChain ++ argChain,
+            argChain.head? == some .cryptIdentity || dictChain.head? == some .cryptIdentity)
 
 end PdfVerif.SEC
